@@ -19,13 +19,32 @@ STATS = {'minimum': 'nanmin', 'maximum': 'nanmax', 'median': 'nanmedian', 'avera
          'standard deviation': 'nanstd'}
 
 
+def entries_var(w) -> Optional[str]:
+    """Name of the text the worker appends to the per-iteration input file (`with open(tmp, 'a') as f: f.write('\\n' + entries)`)."""
+    for n in ast.walk(w.node):
+        if isinstance(n, ast.With):
+            for it in n.items:
+                ce = it.context_expr
+                if isinstance(ce, ast.Call) and dotted_name(ce.func) == 'open' and len(ce.args) >= 2 and isinstance(ce.args[1], ast.Constant) \
+                        and ce.args[1].value == 'a' and isinstance(it.optional_vars, ast.Name):
+                    for c in calls_in(n):
+                        if isinstance(c.func, ast.Attribute) and c.func.attr == 'write' and norm(c.func.value) == it.optional_vars.id and c.args:
+                            names = [x.id for x in ast.walk(c.args[0]) if isinstance(x, ast.Name)]
+                            if len(names) == 1:
+                                return names[0]
+    return None
+
+
 def check_q1(ctx) -> None:
     repo = ctx.repo
     w = repo.function(MC, 'work_package')
     main = repo.function(MC, 'main')
     # the loop over requested outputs that builds the row
+    from rules.mc_common import row_var
+    ROW = row_var(w)
+    ctx.require(ROW is not None, 'work_package: the row handed to the locked append was not found (idiom changed)')
     loops = [n for n in ast.walk(w.node) if isinstance(n, ast.For) and
-             any(isinstance(s, ast.AugAssign) and norm(s.target) == 'result_s' for s in ast.walk(n))]
+             any(isinstance(s, ast.AugAssign) and norm(s.target) == ROW for s in ast.walk(n))]
     ctx.require(len(loops) == 1, f'work_package: expected one loop building the row, found {len(loops)}')
     loop = loops[0]
     where = f'{w.module.rel}:{loop.lineno}'
@@ -34,14 +53,14 @@ def check_q1(ctx) -> None:
         """number of `result_s += ...` executions on each path through stmts (if/else forks only)."""
         paths = [0]
         for st in stmts:
-            if isinstance(st, ast.AugAssign) and norm(st.target) == 'result_s':
+            if isinstance(st, ast.AugAssign) and norm(st.target) == ROW:
                 paths = [p + 1 for p in paths]
             elif isinstance(st, ast.If):
                 a = tokens_on_paths(st.body)
                 b = tokens_on_paths(st.orelse)
                 paths = [p + x for p in paths for x in set(a) | set(b)]
             elif isinstance(st, (ast.For, ast.While)):
-                if any(isinstance(s, ast.AugAssign) and norm(s.target) == 'result_s' for s in ast.walk(st)):
+                if any(isinstance(s, ast.AugAssign) and norm(s.target) == ROW for s in ast.walk(st)):
                     raise AnalysisError('row tokens appended in a nested loop: unsupported idiom')
             elif isinstance(st, (ast.Continue, ast.Break)):
                 return sorted(set(paths))
@@ -75,14 +94,29 @@ def check_q1(ctx) -> None:
     ctx.check(unpack.get(src) is not None and unpack.get(src, '').startswith('pass_list[') and src == 'outputs', 'Q1',
               'work_package/row-iterates-outputs', where, f'the row loop iterates `{it}` (= {src}), not the requested outputs list')
     # header: outputs first then inputs, same order as the row (outputs..., then "(inputs)")
+    # the header string is what main writes into the freshly created result file (`with open(output_file, 'w') as f: f.write(s)`)
+    HDR = None
+    for n in ast.walk(main.node):
+        if isinstance(n, ast.With):
+            for it in n.items:
+                ce = it.context_expr
+                if isinstance(ce, ast.Call) and dotted_name(ce.func) == 'open' and len(ce.args) >= 2 and isinstance(ce.args[1], ast.Constant) \
+                        and ce.args[1].value == 'w' and isinstance(it.optional_vars, ast.Name):
+                    for c in calls_in(n):
+                        if isinstance(c.func, ast.Attribute) and c.func.attr == 'write' and norm(c.func.value) == it.optional_vars.id \
+                                and len(c.args) == 1 and isinstance(c.args[0], ast.Name) and HDR is None:
+                            HDR = c.args[0].id
+    ctx.require(HDR is not None, 'main: the header line written to the new result file was not found (idiom changed)')
     hdr_loops = [n for n in main.node.body if isinstance(n, ast.For) and
-                 any(isinstance(s, ast.AugAssign) and norm(s.target) == 's' for s in n.body)]
+                 any(isinstance(s, ast.AugAssign) and norm(s.target) == HDR for s in n.body)]
     ctx.require(len(hdr_loops) == 2, f'main: expected two header loops, found {len(hdr_loops)}')
     ctx.check([norm(l.iter) for l in hdr_loops] == ['outputs', 'inputs'], 'Q1', 'main/header-order', f'{main.module.rel}:{hdr_loops[0].lineno}',
               f'header columns are built from {[norm(l.iter) for l in hdr_loops]} (row order is outputs then inputs)')
-    # after the loop the inputs are appended to the row
-    tail = [st for st in ast.walk(w.node) if isinstance(st, ast.AugAssign) and norm(st.target) == 'result_s'
-            and 'input_file_entries' in norm(st.value)]
+    # after the loop the inputs are appended to the row: the text appended to the simulated input file (C13 M3 / Q5)
+    ENT = entries_var(w)
+    ctx.require(ENT is not None, 'work_package: the sampled-input text appended to the simulated input file was not found (idiom changed)')
+    tail = [st for st in ast.walk(w.node) if isinstance(st, ast.AugAssign) and norm(st.target) == ROW
+            and any(isinstance(x, ast.Name) and x.id == ENT for x in ast.walk(st.value))]
     ctx.check(len(tail) == 1 and tail[0].lineno > loop.lineno, 'Q1', 'work_package/inputs-after-outputs', where,
               'the sampled inputs are not appended after the output tokens')
     # value tokenisation: the value is the first token after the colon
@@ -130,86 +164,105 @@ def check_q3(ctx) -> None:
                 args = [norm(a) for a in st.value.args] + [f'{k.arg}={norm(k.value)}' for k in st.value.keywords]
                 red[st.targets[0].id] = (fn, args[0] if args else '', ','.join(args[1:]))
     ctx.floor('Q3', len(red), 6, 'reducer assignments')
+    datas = {d for _, d, _ in red.values()}
+    ctx.require(len(datas) == 1, f'main: the reducers read {sorted(datas)} (expected one container of parsed rows)')
+    DATA = next(iter(datas))
     for var, (fn, data, axis) in red.items():
-        ctx.check(data == 'results' and axis in ('0', 'axis=0'), 'Q3', f'main/reducer:{var}', f'{main.module.rel}:{main.node.lineno}',
+        ctx.check(data == DATA and axis in ('0', 'axis=0'), 'Q3', f'main/reducer:{var}', f'{main.module.rel}:{main.node.lineno}',
                   f'{var} = np.{fn}({data}, {axis}): not a per-column reduction over the parsed rows')
+    # the statistics dictionary: the one whose entries get the documented statistic names
     pairs = []
     for st in ast.walk(main.node):
-        if isinstance(st, ast.Assign) and isinstance(st.targets[0], ast.Subscript) and \
-                norm(st.targets[0].value) == 'outputs_result[output]' and isinstance(st.targets[0].slice, ast.Constant):
-            pairs.append((st.targets[0].slice.value, st.value, st))
+        if isinstance(st, ast.Assign) and isinstance(st.targets[0], ast.Subscript):
+            t = st.targets[0]
+            if isinstance(t.value, ast.Subscript) and isinstance(t.value.value, ast.Name) and isinstance(t.slice, ast.Constant) \
+                    and t.slice.value in STATS:
+                pairs.append((t.slice.value, st.value, st, t.value.slice, t.value.value.id))            # D[label]['minimum'] = mins[i]
+            elif isinstance(t.value, ast.Name) and isinstance(st.value, ast.Dict) and st.value.keys and \
+                    all(isinstance(k, ast.Constant) and k.value in STATS for k in st.value.keys):
+                for k, v in zip(st.value.keys, st.value.values):                         # D[label] = {'minimum': mins[i], ...}
+                    pairs.append((k.value, v, st, t.slice, t.value.id))
+    dicts = {p[4] for p in pairs}
+    ctx.require(len(dicts) <= 1, f'main: statistics are stored in {sorted(dicts)} (expected one dictionary)')
+    DICT = next(iter(dicts)) if dicts else None
     ctx.floor('Q3', len(pairs), 6, 'statistic assignments')
     seen = set()
-    for name, val, st in pairs:
+    stat_loops = [n for n in ast.walk(main.node) if isinstance(n, ast.For) and any(s is p[2] for p in pairs for s in ast.walk(n))]
+    stat_loops = [n for n in stat_loops if not any(m is not n and any(x is m for x in ast.walk(n)) for m in stat_loops)]   # innermost
+    ctx.require(len(stat_loops) == 1, f'main: expected one loop filling the statistics, found {len(stat_loops)}')
+    loop = stat_loops[0]
+    IDX = norm(loop.target)
+    for name, val, st, _lab, _d in pairs:
         key = f'main/statistic:{name}'
         where = f'{main.module.rel}:{st.lineno}'
-        ok = isinstance(val, ast.Subscript) and isinstance(val.value, ast.Name) and norm(val.slice) == 'i' and \
+        ok = isinstance(val, ast.Subscript) and isinstance(val.value, ast.Name) and norm(val.slice) == IDX and \
             red.get(val.value.id, ('',))[0] == STATS.get(name)
         seen.add(name)
         ctx.check(ok, 'Q3', key, where,
                   f"statistic {name!r} is filled from `{norm(val)}` (= np.{red.get(getattr(val.value, 'id', ''), ('?',))[0] if isinstance(val, ast.Subscript) else '?'}), "
-                  f'expected np.{STATS.get(name)} of column i', fact=f'{name} <- {norm(val)}')
+                  f'expected np.{STATS.get(name)} of column {IDX}', fact=f'{name} <- {norm(val)}')
     ctx.check(seen == set(STATS), 'Q3', 'main/statistics-complete', f'{main.module.rel}:{main.node.lineno}',
               f'statistics reported: {sorted(seen)}; documented: {sorted(STATS)}')
-    # the loop index i ranges over outputs and the column is i (results columns are in outputs order)
-    for loop in [n for n in ast.walk(main.node) if isinstance(n, ast.For) and any(s is st for name, val, st in pairs for s in ast.walk(n))]:
-        ctx.check(norm(loop.iter) == 'range(len(outputs))' and norm(loop.target) == 'i', 'Q3', 'main/statistic-loop-range',
-                  f'{main.module.rel}:{loop.lineno}', f'statistics loop iterates `{norm(loop.iter)}`')
-        outdef = [s for s in loop.body if isinstance(s, ast.Assign) and norm(s.targets[0]) == 'output']
-        ctx.check(len(outdef) == 1 and norm(outdef[0].value) == 'outputs[i]', 'Q3', 'main/statistic-label-index',
-                  f'{main.module.rel}:{loop.lineno}', 'the label of a statistics block is not outputs[i] for column i')
-        # text block from the same dictionary
-        inner = [n for n in ast.walk(loop) if isinstance(n, ast.For) and norm(n.iter) == 'outputs_result[output].items()']
-        ctx.check(len(inner) == 1 and any(isinstance(c.func, ast.Attribute) and c.func.attr == 'write' for c in calls_in(inner[0])),
-                  'Q3', 'main/text-from-same-dict', f'{main.module.rel}:{loop.lineno}',
-                  'the text summary is not printed from outputs_result (the dictionary that becomes the JSON)')
+    # the loop index ranges over outputs and the column is that index (results columns are in outputs order)
+    from gxstat.inline import inline_sequential
+    ctx.check(norm(loop.iter) == 'range(len(outputs))', 'Q3', 'main/statistic-loop-range',
+              f'{main.module.rel}:{loop.lineno}', f'statistics loop iterates `{norm(loop.iter)}`')
+    lab_ok = all(norm(inline_sequential(p[3], p[2])) == f'outputs[{IDX}]' for p in pairs)
+    ctx.check(lab_ok, 'Q3', 'main/statistic-label-index',
+              f'{main.module.rel}:{loop.lineno}', f'the label of a statistics block is not outputs[{IDX}] for column {IDX}')
+    # text block from the same dictionary
+    inner = [n for n in ast.walk(loop) if isinstance(n, ast.For) and norm(n.iter).startswith(f'{DICT}[') and norm(n.iter).endswith('.items()')]
+    ctx.check(len(inner) == 1 and any(isinstance(c.func, ast.Attribute) and c.func.attr == 'write' for c in calls_in(inner[0])),
+              'Q3', 'main/text-from-same-dict', f'{main.module.rel}:{loop.lineno}',
+              f'the text summary is not printed from {DICT} (the dictionary that becomes the JSON)')
     dumps = [c for c in calls_in(main.node) if dotted_name(c.func) == 'json.dumps']
-    ctx.check(len(dumps) == 1 and norm(dumps[0].args[0]) == 'outputs_result', 'Q3', 'main/json-from-same-dict',
-              f'{main.module.rel}:{dumps[0].lineno if dumps else main.node.lineno}', 'the JSON summary is not json.dumps(outputs_result)')
+    ctx.check(len(dumps) == 1 and norm(dumps[0].args[0]) == DICT, 'Q3', 'main/json-from-same-dict',
+              f'{main.module.rel}:{dumps[0].lineno if dumps else main.node.lineno}', f'the JSON summary is not json.dumps({DICT})')
     # no write to outputs_result between the statistics loop and the dump other than the six assignments
     other = [st for st in ast.walk(main.node) if isinstance(st, (ast.Assign, ast.AugAssign)) and
-             'outputs_result' in norm(st.targets[0] if isinstance(st, ast.Assign) else st.target) and
+             DICT in {x.id for x in ast.walk(st.targets[0] if isinstance(st, ast.Assign) else st.target) if isinstance(x, ast.Name)} and
              st not in [p[2] for p in pairs] and not isinstance(getattr(st, 'value', None), ast.Dict)]
     other = [st for st in other if not (isinstance(st, ast.AnnAssign))]
     for st in other:
         ctx.bad('Q3', f'main/extra-write:{norm(st)[:50]}', f'{main.module.rel}:{st.lineno}',
-                'outputs_result is modified outside the six statistic assignments: text and JSON may differ')
+                f'{DICT} is modified outside the six statistic assignments: text and JSON may differ')
     # rows parsed for statistics: every non-empty row, output columns only
-    check_rows_container(ctx, main)
+    check_rows_container(ctx, main, DATA)
 
 
-def check_rows_container(ctx, main) -> None:
+def check_rows_container(ctx, main, DATA: str = 'results') -> None:
     """The array the statistics are reduced over holds exactly the parsed rows: it starts empty and grows by one append per
     parsed line, or - when pre-allocated - is cut to the number of rows stored before the first reducer reads it."""
     rel = main.module.rel
-    defs = [st for st in ast.walk(main.node) if isinstance(st, ast.Assign) and norm(st.targets[0]) == 'results']
-    ctx.require(defs, 'main: no definition of `results` found (anchor vanished)')
+    defs = [st for st in ast.walk(main.node) if isinstance(st, ast.Assign) and norm(st.targets[0]) == DATA]
+    ctx.require(defs, f'main: no definition of `{DATA}` found (anchor vanished)')
     first = min(defs, key=lambda st: st.lineno)
     reducers = [st for st in main.node.body if isinstance(st, ast.Assign) and isinstance(st.value, ast.Call) and
-                (dotted_name(st.value.func) or '').startswith('np.') and st.value.args and norm(st.value.args[0]) == 'results']
-    ctx.require(reducers, 'main: no reducer over `results` found (anchor vanished)')
+                (dotted_name(st.value.func) or '').startswith('np.') and st.value.args and norm(st.value.args[0]) == DATA]
+    ctx.require(reducers, f'main: no reducer over `{DATA}` found (anchor vanished)')
     first_red = min(r.lineno for r in reducers)
-    appends = [c for c in calls_in(main.node) if isinstance(c.func, ast.Attribute) and c.func.attr == 'append' and norm(c.func.value) == 'results']
+    appends = [c for c in calls_in(main.node) if isinstance(c.func, ast.Attribute) and c.func.attr == 'append' and norm(c.func.value) == DATA]
     stores = [st for st in ast.walk(main.node) if isinstance(st, ast.Assign) and isinstance(st.targets[0], ast.Subscript) and
-              norm(st.targets[0].value) == 'results']
+              norm(st.targets[0].value) == DATA]
     empty = isinstance(first.value, ast.List) and not first.value.elts
     key = 'main/statistics-over-parsed-rows-only'
     where = f'{rel}:{first.lineno}'
     if empty and not stores and len(defs) == 1:
-        ok = len(appends) >= 1 and all('float' in norm(c.args[0]) for c in appends)
-        ctx.check(ok, 'Q3', key, where, f'`results` starts empty but is not filled by appending the parsed floats of each row '
+        from gxstat.inline import enclosing_stmt, inline_sequential
+        ok = len(appends) >= 1 and all('float' in norm(inline_sequential(c.args[0], enclosing_stmt(c))) for c in appends)
+        ctx.check(ok, 'Q3', key, where, f'`{DATA}` starts empty but is not filled by appending the parsed floats of each row '
                                         f'({[norm(c)[:60] for c in appends]})', fact='starts empty, one append of parsed floats per row')
         return
     # pre-allocated / indexed container: must be cut to the stored count before the reducers
     trims = [st for st in defs if st is not first and st.lineno < first_red and isinstance(st.value, ast.Subscript) and
-             norm(st.value.value) == 'results' and isinstance(st.value.slice, ast.Slice) and st.value.slice.lower is None and
+             norm(st.value.value) == DATA and isinstance(st.value.slice, ast.Slice) and st.value.slice.lower is None and
              st.value.slice.upper is not None]
     counters = {norm(st.targets[0].slice) for st in stores}
     ok = bool(trims) and any(norm(t.value.slice.upper) in counters or norm(t.value.slice.upper).startswith('len(') is False and
                              norm(t.value.slice.upper) in {norm(a.target) for a in ast.walk(main.node) if isinstance(a, ast.AugAssign)}
                              for t in trims)
     ctx.check(ok, 'Q3', key, where,
-              f'`results` is created as `{norm(first.value)[:60]}` and filled by position; it is not cut to the number of rows actually '
+              f'`{DATA}` is created as `{norm(first.value)[:60]}` and filled by position; it is not cut to the number of rows actually '
               f'stored before np.nanmin/... read it, so every iteration that produced no row contributes a row of filler values to the '
               f'minimum, median, mean and standard deviation', fact='pre-allocated and trimmed to the stored count')
 
@@ -391,10 +444,9 @@ def check_no_digit_grouping(ctx) -> None:
     n = 0
     # the driver may instead normalise the token it copies: `<token>.replace(',', '')` before it is appended to the row
     w = repo.function(MC, 'work_package')
-    strips = any(isinstance(c, ast.Call) and isinstance(c.func, ast.Attribute) and c.func.attr == 'replace' and len(c.args) == 2 and
-                 isinstance(c.args[0], ast.Constant) and c.args[0].value == ',' and isinstance(c.args[1], ast.Constant) and c.args[1].value == ''
-                 and any(isinstance(x, ast.Name) and x.id.startswith('s') for x in ast.walk(c.func.value))
-                 for st in ast.walk(w.node) if isinstance(st, ast.Assign) for c in ast.walk(st.value))
+    from rules.mc_common import strips_commas, token_expressions
+    toks = token_expressions(w)
+    strips = all(strips_commas(v) for _, v in toks) if toks else None
     ctx.analysed['driver_strips_thousands_separators'] = strips
     for f in repo.all_functions():
         if f.name not in ('PrintOutputs', 'print_outputs_rich') and not (f.cls is not None and f.cls.name.endswith('Outputs')):
@@ -412,6 +464,9 @@ def check_no_digit_grouping(ctx) -> None:
             continue
         n += len(specs)
         bad = [(sp, x) for sp, x in specs if re.search(r'^[^a-zA-Z%]*[,_]', sp)]
+        if bad and strips is None:
+            raise AnalysisError('work_package: the statement that copies a report token into the row was not found (idiom changed); cannot tell '
+                                'whether thousands separators are stripped')
         if bad and strips and all(',' in sp and '_' not in sp.split('.')[0] for sp, _ in bad):
             ctx.ok('Q9', f'{f.qualname}/no-digit-grouping-in-numbers', f'{f.module.rel}:{bad[0][1].lineno}',
                    f'{len(bad)} spec(s) group digits with a comma; the driver strips commas from the token it copies')
